@@ -75,8 +75,12 @@ CORPUS = [
     ("bits_wide_vs_deep", named(("wide", Array(16, L("u8"))), ("deep", Array(1, Array(1, L("u8")))), ("n", L("u8")))),
     ("len_long_vs_deep", named(("a_rather_long_field_name", L("u8")), ("d", named(("e", named(("f", L("u8")),)),)))),
     ("arr_wide2", Array(70000, Array(2, L("unit")))),
+    # more siblings than a u8 / i8 index slot can count, yet small enough for brute-force enumeration
+    ("arr300x2", named(("table", Array(300, Array(2, L("unit")))), ("n", L("u8")))),
     # 3 x 21 bits: every leaf key fills a Packed word exactly (max_bits = 63 = Packed::CAPACITY) at depth 3
     ("bits63_cube", Array(2**21, Array(2**21, Array(2**21, L("unit"))))),
+    # 4 x 16 bits: one bit more than a Packed word holds; the last push finds less room than it needs
+    ("bits64_deep", Array(2**16, Array(2**16, Array(2**16, Array(2**16, L("unit")))))),
     ("access_deny", Struct([F("inner", Struct([F("val", L("u8"), get=True, get_mut=True, validate=True,
                                                   deny={"deserialize": "read-only", "ref_any": "opaque"}),
                                                 F("locked", L("bool"))]), get=True, get_mut=True),
